@@ -38,7 +38,7 @@ func C14(c *Ctx) {
 	want := ResultValue(get, 0)
 	present := ResultValue(get, 1)
 	isMatch := func(f Fact) bool {
-		rel := f.Rel()
+		rel := f.EqRel()
 		if rel.Op != token.EQL {
 			return false
 		}
